@@ -33,12 +33,13 @@
      (6) THE FUNCTIONAL THEOREM: every answer that is returned - computed by a SAT call or served from
          the cache - is the one the semantics dictate for the specification store of the whole
          history, certificate included, for every valid oracle, both n_vars disciplines;
+     (6') and such a query returns or aborts on an Unknown answer: never a panic, never out of fuel;
      (7) hence the status depends on the abstract framework only (not on earlier queries, cached
          results, retired variables).
    STILL NOT PROVED: (6)-(7) for the preferred solver (KPr: (5) holds for it, the analysis of its search
    loop on the shared session is missing), for the assumptions-on-attacks variants and their tables.  See NOTES-dyn.md, NOTES-agent-dynfun.md. *)
 From Crusta Require Import Model.Dynamic Spec.Invariance Proofs.SolverBasics Proofs.DynDefs Proofs.DynProofs Proofs.DynEnc
-  Proofs.DynFunDefs Proofs.DynInv Proofs.DynFun Proofs.CompProofs Proofs.SolverWholeEx.
+  Proofs.DynFunDefs Proofs.DynInv Proofs.DynFun Proofs.DynTotal Proofs.CompProofs Proofs.SolverWholeEx.
 
 Section C08.
 Variable L : Type.
@@ -200,6 +201,30 @@ Theorem C08_complete_stable_functional :
   end.
 Proof. exact (DynFun.dyn_functional L leqb leqb_spec). Qed.
 
+(* (6') "every dynamic solver answers each acceptance query it supports": the query of (6) either RETURNS -
+   with the answer of (6) - or aborts because the SAT solver answered Unknown; it never panics and never
+   exhausts the model's fuel (the form of the static solver theorems, C01-C04: run_ok) *)
+Theorem C08_complete_stable_answers :
+  forall oracle thr k s ps os fuel q cert l id,
+  valid_oracle oracle -> vreach L leqb oracle thr k s ps os ->
+  (k = KCo /\ q = QDC) \/ (k = KSt /\ (q = QDC \/ q = QDS)) ->
+  get_argument L leqb (run_ops fresh os) l = Some id ->
+  match dyn_query oracle L leqb thr fuel s q cert l ps with
+  | Done (s', (b, c)) ps' =>
+      let F := af_of (run_ops fresh os) in
+      let sm := match k with KSt => ST | _ => CO end in
+      let pol := match q with QDC => true | _ => false end in
+      (b = true <-> if pol then cred sm F [id] else skep sm F [id]) /\
+      match c with
+      | Some X => cert = true /\ b = pol /\ ext sm F X /\ NoDup X /\ incl X (args F) /\
+                  (if pol then In id X else ~ In id X)
+      | None => cert = true -> b = negb pol
+      end
+  | Abort _ => True
+  | Panic _ | OutOfFuel _ => False
+  end.
+Proof. exact (DynTotal.dyn_functional_run L leqb leqb_spec). Qed.
+
 (* (7) "earlier queries, cached results and retired SAT variables never influence a later answer": two
    histories - whatever their queries, oracles, thresholds, fuels, certificate flags - whose
    specification stores denote the same abstract framework (same arguments, same attacks) give the same
@@ -338,6 +363,7 @@ Print Assumptions C08_fresh_certificate_wellformed_partial.
 Print Assumptions C08_preferred_cache_sound_partial.
 Print Assumptions C08_clause_set_invariant.
 Print Assumptions C08_complete_stable_functional.
+Print Assumptions C08_complete_stable_answers.
 Print Assumptions C08_status_depends_on_framework_only.
 Print Assumptions C08_complete_template_sound_partial.
 Print Assumptions C08_complete_template_complete_partial.
